@@ -1,6 +1,7 @@
 """C06 — ToDo scheduling: never early, in due order, exactly once, cancellable, shiftable."""
 from common import *
 from engine import run_sim_check
+import schedcheck
 import drivercases as dc
 
 THEOREMS = ["insert_sorted", "insert_stable", "remove_sorted", "move_single_entry", "cancel_prevents", "exactly_once", "todos_invariant_all_histories",
@@ -49,7 +50,7 @@ def distribution(cases):
 
 
 SPEC = {
-    "id": "C06", "module": "Properties_C06", "theorems": THEOREMS, "harness": "sim",
+    "id": "C06", "extra": schedcheck.extra_stage(("shift", "todo"), [schedcheck.mon_todo]), "module": "Properties_C06", "theorems": THEOREMS, "harness": "sim",
     "generate": generate, "project": project, "nontrivial_key": nontrivial_key, "monitor": dc.monitor_todos,
     "distribution": distribution,
     "rule": "histories of ToDo construct(when|delay|unscheduled)/Shift/Cancel/drop-handle on 1-5 ToDos with equal, past and future due times "
